@@ -6,12 +6,42 @@ bytes, the chain id, the key and the hash function as OPAQUE / uninterpreted val
            the result is the same group carrying exactly that signature.
   binary_payload(): forged ‖ raw signature (ValueError when unsigned);   hash(): b58('o', blake2b_32(forged ‖ raw signature)).
 Cryptographic validity of the signature itself is the assumed contract of the key primitives (C07).
+
+Widened (second audit): the expected class of every kind comes from the table PASS below, WRITTEN OUT from the protocol and not
+read from pytezos.rpc.kind (a wrong row of the live table is a violation, not a change of the oracle); every kind of the live
+table is signed alone with and without chain id; groups that ALREADY carry a (stale) signature and a remembered opg_hash are
+signed again; protocol / branch / chain id of the signed copy are part of the frame; hash() of an unsigned group that remembers
+an injected hash must still raise.
+Widened (seed class C23_5): ONE group object is re-used across in-place edits (contents[0]['fee'] = …, contents.append(…), branch = …):
+forge()/sign() before the edit, sign() after it must sign watermark ‖ forged(CURRENT fields); hash()/binary_payload() of the signed
+copy before and after in-place edits (contents, branch, signature).  In these harnesses the REAL forge() runs and only
+forge_operation_group is uninterpreted (a function of the payload's branch and contents at the time of the call).
 """
 import z3
 from vlib.pyvc import Engine, RaiseEx, Sym, Obj, Z, ZB, Unsupported
 from vlib.pyvc.engine import BoundM
 from vlib.pyvc.report import report, run_harness, functions_interpreted
 from props.C06_P import GB, Tok, C, norm, _K
+
+
+# Validation passes of the Tezos protocol, written out independently of pytezos.rpc.kind: 0 consensus, 1 voting, 2 anonymous,
+# 3 manager; -1 is pytezos' marker for failing_noop (accepted by no pass, signed with the generic 0x03 watermark).
+# Consensus kinds (pass 0) are the only ones signed under 0x02 ‖ chain id (property statement).
+PASS = {
+    'failing_noop': -1,
+    'endorsement': 0, 'endorsement_with_slot': 0, 'preendorsement': 0, 'attestation': 0, 'preattestation': 0,
+    'attestation_with_dal': 0, 'endorsement_with_dal': 0,
+    'proposals': 1, 'ballot': 1,
+    'seed_nonce_revelation': 2, 'double_endorsement_evidence': 2, 'double_preendorsement_evidence': 2,
+    'double_attestation_evidence': 2, 'double_preattestation_evidence': 2, 'double_baking_evidence': 2,
+    'activate_account': 2, 'vdf_revelation': 2, 'drain_delegate': 2,
+    'reveal': 3, 'transaction': 3, 'origination': 3, 'delegation': 3, 'register_global_constant': 3, 'set_deposits_limit': 3,
+    'increase_paid_storage': 3, 'update_consensus_key': 3, 'transfer_ticket': 3,
+    'smart_rollup_originate': 3, 'smart_rollup_add_messages': 3, 'smart_rollup_cement': 3, 'smart_rollup_publish': 3,
+    'smart_rollup_refute': 3, 'smart_rollup_timeout': 3, 'smart_rollup_execute_outbox_message': 3,
+    'smart_rollup_recover_bond': 3, 'dal_publish_commitment': 3, 'zk_rollup_origination': 3, 'zk_rollup_publish': 3,
+    'zk_rollup_update': 3,
+}
 
 
 class GKey:
@@ -69,13 +99,24 @@ class GDigest:
         raise Unsupported('hash.' + name)
 
 
-def mk_group(kinds, chain_id, signature=None):
+def mk_group(kinds, chain_id, signature=None, remembered=False):
     from pytezos.operation.group import OperationGroup
     key = GKey()
     g = Obj(OperationGroup)
-    g.f.update(context=GCtx(key), contents=[{'kind': k} for k in kinds], protocol='P', chain_id=chain_id, branch=Tok('branch'),
+    g.f.update(context=GCtx(key), contents=[{'kind': k} for k in kinds], protocol=Tok('protocol'), chain_id=chain_id, branch=Tok('branch'),
                signature=signature, opg_hash=None, opg_result=None)
+    if remembered:      # what send() / _spawn leave behind on a group derived from an injected one
+        g.f['opg_hash'] = Tok('hash_remembered_from_an_earlier_injection')
+        g.f['opg_result'] = {'hash': Tok('hash_remembered_from_an_earlier_injection')}
     return g, key
+
+
+def _field(r, name):
+    return r.f.get(name) if isinstance(r, Obj) else getattr(r, name, None)
+
+
+def _same(a, b):
+    return a is b or (isinstance(a, Tok) and isinstance(b, Tok) and a.name == b.name)
 
 
 def install(e):
@@ -88,16 +129,17 @@ def install(e):
     e.stub(G.base58_encode, lambda eng, a, k: Tok(f'b58({a[1]!r},{tuple(norm([a[0]]))})'))
 
 
-def h_sign(kinds, with_chain):
+def h_sign(kinds, with_chain, presigned=False):
+    """presigned: the group already carries a signature (made before its contents / branch changed: _spawn copies it) and a
+    remembered opg_hash; sign() must sign again and the copy must carry the NEW signature."""
     from pytezos.operation.group import OperationGroup
-    from pytezos.rpc.kind import validation_passes
 
     def h(e: Engine):
         install(e)
         chain = Tok('chain_id') if with_chain else None
-        g, key = mk_group(kinds, chain)
-        passes = {validation_passes[k] for k in kinds}
-        tag = f'sign[{",".join(kinds)};chain_id={"set" if with_chain else "None"}]'
+        g, key = mk_group(kinds, chain, Tok('stale_signature') if presigned else None, remembered=presigned)
+        passes = {PASS[k] for k in kinds}           # independent protocol table, NOT pytezos.rpc.kind.validation_passes
+        tag = f'sign[{",".join(kinds)};chain_id={"set" if with_chain else "None"}{";already signed" if presigned else ""}]'
         try:
             r = e.call(BoundM(OperationGroup.__dict__['sign'], g), [], {})
         except RaiseEx as ex:
@@ -113,25 +155,27 @@ def h_sign(kinds, with_chain):
             forged = C('HEX', '<forged_hex>')
             want = [b'\x02', C('B58DEC', '<utf8(chain_id)>'), forged] if passes == {0} else [b'\x03', forged]
             e.check(f'OperationGroup.{tag}::ensures.message==watermark‖forged', z3.BoolVal(msg == want))
-        sig = r.f.get('signature') if isinstance(r, Obj) else getattr(r, 'signature', None)
+        sig = _field(r, 'signature')
         e.check(f'OperationGroup.{tag}::ensures.result_carries_that_signature_and_same_contents',
-                z3.BoolVal(isinstance(sig, Tok) and sig.name == 'signature#1'
-                           and (r.f.get('contents') if isinstance(r, Obj) else r.contents) == g.f['contents']))
+                z3.BoolVal(isinstance(sig, Tok) and sig.name == 'signature#1' and _field(r, 'contents') == g.f['contents']))
+        e.check(f'OperationGroup.{tag}::ensures.same_protocol_branch_chain_id',
+                z3.BoolVal(all(_same(_field(r, n), g.f[n]) for n in ('protocol', 'branch', 'chain_id'))))
+        if not all(_same(_field(r, n), g.f[n]) for n in ('protocol', 'branch', 'chain_id')):
+            e.obl[list(e.obl)[-1]]['reason'] = 'got ' + repr({n: _field(r, n) for n in ('protocol', 'branch', 'chain_id')})
     return h
 
 
-def h_hash(signed, remembered=False):
+def h_hash(signed, remembered=False, kinds=('transaction',), with_chain=True):
     """remembered: the group carries an opg_hash / opg_result from an earlier injection (send() and _spawn copy them into derived groups)"""
     from pytezos.operation.group import OperationGroup
 
     sfx = '[group carrying a remembered opg_hash]' if remembered else ''
+    if tuple(kinds) != ('transaction',) or not with_chain:
+        sfx += f'[{",".join(kinds)};chain_id={"set" if with_chain else "None"}]'
 
     def h(e: Engine):
         install(e)
-        g, key = mk_group(['transaction'], Tok('chain_id'), Tok('sig') if signed else None)
-        if remembered:
-            g.f['opg_hash'] = Tok('hash_remembered_from_an_earlier_injection')
-            g.f['opg_result'] = {'hash': Tok('hash_remembered_from_an_earlier_injection')}
+        g, key = mk_group(list(kinds), Tok('chain_id') if with_chain else None, Tok('sig') if signed else None, remembered=remembered)
         try:
             r = e.call(BoundM(OperationGroup.__dict__['hash'], g), [], {})
         except RaiseEx as ex:
@@ -147,6 +191,130 @@ def h_hash(signed, remembered=False):
     return h
 
 
+# ------------------------------------------------------------------ ONE group object re-used across an in-place edit
+def _snap(v):
+    """value of a field AT THE TIME of a call (contents are plain lists / dicts that callers edit in place)"""
+    if isinstance(v, Tok):
+        return ('T', v.name)
+    if isinstance(v, dict):
+        return ('D',) + tuple((k, _snap(x)) for k, x in sorted(v.items()))
+    if isinstance(v, (list, tuple)):
+        return ('L',) + tuple(_snap(x) for x in v)
+    return ('V', repr(v))
+
+
+class GHex:
+    """hex text of ghost bytes"""
+    __pyvc_symbolic__ = True
+    __pyvc_strlike__ = True
+
+    def __init__(self, term):
+        self.term = term
+
+    def __pyvc_truth__(self, eng):
+        return True
+
+    def __pyvc_fromhex__(self, eng):
+        return GB([self.term])
+
+
+class GForged:
+    """forge_operation_group(payload): an uninterpreted function of the payload's branch and contents as they are when it is called"""
+    __pyvc_symbolic__ = True
+
+    def __init__(self, term):
+        self.term = term
+
+    def __pyvc_isinstance__(self, cs):
+        return bytes in cs
+
+    def __pyvc_attr__(self, eng, name):
+        if name == 'hex':
+            return _K(GHex(self.term))
+        raise Unsupported('forged.' + name)
+
+
+def _forged_term(branch, contents):
+    return C('FORGE_GROUP', _snap(branch), _snap(contents))
+
+
+def install_real_forge(e):
+    """as install(), but the REAL OperationGroup.forge runs (a memo inside it is visible); only forge_operation_group is uninterpreted"""
+    from pytezos.operation import group as G
+    e.stub(G.forge_operation_group, lambda eng, a, k: GForged(_forged_term(a[0]['branch'], a[0]['contents'])))
+    e.stub(G.base58_decode, lambda eng, a, k: GB([C('B58DEC', repr(a[0]))]))
+    e.stub(G.forge_base58, lambda eng, a, k: GB([C('RAWSIG', repr(a[0]))]))
+    e.stub(G.blake2b_32, lambda eng, a, k: GDigest(a[0]))
+    e.stub(G.base58_encode, lambda eng, a, k: Tok(f'b58({a[1]!r},{tuple(norm([a[0]]))})'))
+
+
+EDITS = ('fee', 'append', 'branch', 'all')
+
+
+def _edit(g, edit, n):
+    """in-place edit of the SAME group object (what `opg.contents[0]['fee'] = …`, `opg.contents.append(…)`, `opg.branch = …` do)"""
+    if edit in ('fee', 'all'):
+        g.f['contents'][0]['fee'] = Tok(f'fee_edited_{n}')
+    if edit in ('append', 'all'):
+        g.f['contents'].append({'kind': g.f['contents'][-1]['kind'], 'fee': Tok(f'fee_of_appended_content_{n}')})
+    if edit in ('branch', 'all'):
+        g.f['branch'] = Tok(f'branch_edited_{n}')
+
+
+def h_reuse(kind, with_chain, first, edit):
+    """first: what was called on the group object before the edit ('forge' | 'sign' | 'sign,sign'); then the object is edited in
+    place and sign() is called again: the message must be watermark ‖ forged(CURRENT branch, CURRENT contents)."""
+    from pytezos.operation.group import OperationGroup
+
+    def h(e: Engine):
+        install_real_forge(e)
+        key = GKey()
+        chain = Tok('chain_id') if with_chain else None
+        g = e.call(OperationGroup, [], dict(context=GCtx(key), contents=[{'kind': kind, 'fee': Tok('fee')}], protocol=Tok('protocol'),
+                                            chain_id=chain, branch=Tok('branch')))
+        tag = f'sign[{kind};chain_id={"set" if with_chain else "None"};same object after {first} and in-place edit of {edit}]'
+        consensus = PASS[kind] == 0
+
+        def want_msg():
+            forged = _forged_term(g.f['branch'], g.f['contents'])
+            return [b'\x02', C('B58DEC', '<utf8(chain_id)>'), forged] if consensus else [b'\x03', forged]
+        n = 0
+        for step in first.split(','):
+            if step == 'forge':
+                e.call(BoundM(OperationGroup.__dict__['forge'], g), [], {})
+            else:
+                e.call(BoundM(OperationGroup.__dict__['sign'], g), [], {})
+                e.check(f'OperationGroup.{tag}::ensures.earlier_call.message==watermark‖forged', z3.BoolVal(norm([key.signed[-1][0]]) == want_msg()))
+            n += 1
+            _edit(g, edit, n)
+        before = len(key.signed)
+        r = e.call(BoundM(OperationGroup.__dict__['sign'], g), [], {})
+        ok1 = len(key.signed) == before + 1
+        e.check(f'OperationGroup.{tag}::ensures.key_signs_exactly_once', z3.BoolVal(ok1))
+        if ok1:
+            got = norm([key.signed[-1][0]])
+            e.check(f'OperationGroup.{tag}::ensures.message==watermark‖forged(current branch, current contents)', z3.BoolVal(got == want_msg()))
+            if got != want_msg():
+                e.obl[list(e.obl)[-1]]['reason'] = f'signed {got!r:.300}'
+        e.check(f'OperationGroup.{tag}::ensures.result_has_the_current_fields',
+                z3.BoolVal(_snap(_field(r, 'contents')) == _snap(g.f['contents']) and _same(_field(r, 'branch'), g.f['branch'])))
+        # the signed copy, hashed, edited in place, hashed again
+        sig = _field(r, 'signature')
+        for i, ed in enumerate((None, edit, 'signature')):
+            if ed == 'signature':
+                r.f['signature'] = Tok('signature_replaced_in_place')
+            elif ed:
+                _edit(r, ed, 10 + i)
+            parts = [_forged_term(_field(r, 'branch'), _field(r, 'contents')), C('RAWSIG', repr(_field(r, 'signature')))]
+            hv = e.call(BoundM(OperationGroup.__dict__['hash'], r), [], {})
+            want = f"b58({b'o'!r},{(C('BLAKE2B_32', tuple(parts)),)})"
+            e.check(f"OperationGroup.{tag}::ensures.hash#{i}==b58('o', blake2b_32(forged(current) ‖ raw current signature))",
+                    z3.BoolVal(isinstance(hv, Tok) and hv.name == want))
+            pv = e.call(BoundM(OperationGroup.__dict__['binary_payload'], r), [], {})
+            e.check(f'OperationGroup.{tag}::ensures.binary_payload#{i}==forged(current)‖raw current signature', z3.BoolVal(norm([pv]) == parts))
+    return h
+
+
 def replay(case):
     return False, 'symbolic obligation: replay through the bounded part (props.C23)'
 
@@ -157,18 +325,44 @@ def run_P(ck):
         ck.function(f)
     ck.assume('forge(), key.sign, base58 and blake2b_32 are opaque/uninterpreted here (C06, C07, C09); the signature value is whatever the key returns')
     ck.trust('PyVC encoding of the Python subset (DESIGN.md 3.2)')
-    cases = [(['transaction'], True), (['transaction'], False), (['reveal', 'transaction', 'delegation'], True), (['failing_noop'], True),
-             (['activate_account'], False), (['ballot'], True), (['endorsement'], True), (['endorsement'], False),
-             (['endorsement_with_slot', 'endorsement'], True), (['transaction', 'endorsement'], True), (['reveal', 'ballot'], True),
-             (['origination'], True), (['register_global_constant'], False), (['transfer_ticket'], True), (['smart_rollup_add_messages'], True),
-             (['smart_rollup_execute_outbox_message'], True), (['seed_nonce_revelation'], True)]
-    for kinds, wc in cases:
+    from pytezos.rpc.kind import validation_passes
+    live = list(validation_passes)
+    unknown = [k for k in live if k not in PASS]
+    ck.bound('C23_P_kinds', live)
+    # every kind of the live table, alone, with and without a chain id (the expected class comes from PASS, see above)
+    cases = [([k], wc, False) for k in live if k in PASS for wc in (True, False)]
+    # batches: one class / mixed classes / mixed non-consensus passes
+    cases += [(['reveal', 'transaction', 'delegation'], True, False), (['endorsement_with_slot', 'endorsement'], True, False),
+              (['endorsement', 'endorsement_with_slot'], False, False), (['transaction', 'endorsement'], True, False),
+              (['endorsement', 'transaction'], True, False), (['reveal', 'ballot'], True, False), (['failing_noop', 'transaction'], True, False)]
+    # groups that already carry a signature and a remembered hash (derived from a signed / injected group) are signed again
+    cases += [(['transaction'], True, True), (['reveal', 'transaction'], False, True), (['endorsement'], True, True),
+              (['endorsement'], False, True), (['failing_noop'], False, True), (['transaction', 'endorsement'], True, True)]
+    eng = Engine()
+
+    def h_table(e):
+        e.check('OperationGroup.sign[kinds]::requires.every_kind_of_the_live_validation_pass_table_is_in_the_independent_protocol_table',
+                z3.BoolVal(not unknown))
+        if unknown:
+            e.obl[list(e.obl)[-1]]['reason'] = f'kinds without an independent row: {unknown}'
+    run_harness(ck, eng, h_table, 'sign[kinds table]')
+    report(ck, eng, [])
+    for kinds, wc, pre in cases:
         eng = Engine()
-        run_harness(ck, eng, h_sign(kinds, wc), f'sign[{kinds}]')
+        run_harness(ck, eng, h_sign(kinds, wc, pre), f'sign[{kinds},{wc},{pre}]')
         report(ck, eng, [])
         functions_interpreted(ck, eng)
-    for s, rem in ((True, False), (False, False), (True, True)):
+    # ONE group object re-used: forge()/sign() once (or twice), edit it in place, sign() again; the REAL forge() runs here
+    for kind, wc, first, edit in (('transaction', True, 'forge', 'fee'), ('transaction', False, 'sign', 'append'), ('transaction', True, 'sign', 'branch'),
+                                  ('transaction', True, 'forge,sign', 'all'), ('endorsement', True, 'sign', 'branch'), ('endorsement', True, 'forge', 'all'),
+                                  ('failing_noop', False, 'sign,sign', 'fee'), ('ballot', True, 'forge', 'append')):
         eng = Engine()
-        run_harness(ck, eng, h_hash(s, rem), f'hash[{s},{rem}]')
+        run_harness(ck, eng, h_reuse(kind, wc, first, edit), f'sign-reuse[{kind},{wc},{first},{edit}]')
+        report(ck, eng, [])
+        functions_interpreted(ck, eng)
+    for s, rem, kinds, wc in ((True, False, ('transaction',), True), (False, False, ('transaction',), True), (True, True, ('transaction',), True),
+                              (False, True, ('transaction',), True), (True, True, ('endorsement',), False), (True, False, ('failing_noop', 'ballot'), True)):
+        eng = Engine()
+        run_harness(ck, eng, h_hash(s, rem, kinds, wc), f'hash[{s},{rem},{kinds},{wc}]')
         report(ck, eng, [])
         functions_interpreted(ck, eng)
